@@ -158,6 +158,16 @@ CLAIMED = {
         "ParseImageName as functions with an idempotence hypothesis (proved for the evaluated model). Partial: leaves calling into apimachinery.",
    technique="Coq proof over executable models + reflection-based schema translator + differential correspondence",
    ref="6 C19"),
+ "C06": dict(
+   text="Coq theorems (C06.v): parse_name (pod_name S i) = (S, i) for EVERY string S and every int32 ordinal (hence injective names, own pods recognised); "
+        "the pod built for ordinal i has name/pod-name label S-i, the revision label, the controller reference by UID and a volume per claim template bound "
+        "to claim T-S-i, and passes the controller's identity and storage tests; in the log of CreateStatefulPod, for every claim list, claim cache and "
+        "fault oracle, all claim calls precede the pod create, a failed claim creation means no pod create and an error; claims present before a reconcile "
+        "are present after it (whole reconcile, all oracles). Correspondence: names on random/adversarial strings; pod and claim writes with every "
+        "single fault (claim creations addressed by name); monitor incl. hostname/subdomain/owner/volumes of every created pod.",
+   note="As C03. hostname/subdomain/template volumes are outside the model (harness `ident` flag on the real pod object).",
+   technique="Coq proof (string-level round trip; log-order lemma; state monotonicity through the reconcile) + differential correspondence + monitor",
+   ref="6 C06"),
 }
 
 checks = []
